@@ -5,6 +5,19 @@
 //! `ResolverService`, `TcpConnectorService`, `ConnectorService`, custom `Resolve` impls that log
 //! their calls, and (kind=tlsconn) the real rustls-0.23 / OpenSSL connector services against
 //! in-process TLS servers with run-time generated certificates.
+//!
+//! Construction paths.  `conn <base>[:<path>] …` / `tconn <lib>[:<path>] …`: the service is obtained from its
+//! factory by `service()` (`s`), `ServiceFactory::new_service` (`f`), with a clone of the factory before
+//! (`cs`, `cf`) or of the service after (`sc`, `fc`), constructed directly (`k`, `kc`) or from `Default`
+//! (`d`, `ds`, `df`).  The oracle judges every op against the configuration the FACTORY was given.  Requests:
+//! `s=` a `String`, `t=` a `&'static str`, `h=` a custom `Host` impl; `from` = `ConnectInfo::from`.
+//!
+//! C18 cases (`case <name> kind=acc max=<n|default> tmo=<ms|default>`): the header builds factory 0
+//! (`Acceptor::new`, `set_handshake_timeout`) and service 0 of both flavours; `fnew` / `fset f ms` / `fclone f` /
+//! `fsvc f` create, configure, clone factories and build further services on the same thread;
+//! `call <lib> <cli> [s]` goes through service `s`.  The deadline the oracle holds a call to is computed from
+//! its own bookkeeping of the configuration history, never read back from the crate.
+#![allow(dropping_copy_types)] // `build_svc!` drops the original of every clone, also of the `Copy` TCP connector
 use std::{
     cell::RefCell,
     io::Write,
@@ -15,7 +28,8 @@ use std::{
 
 use actix_service::Service;
 use actix_tls::connect::{
-    tcp::TcpConnector, ConnectError, ConnectInfo, Connector, Host, Resolve, Resolver,
+    tcp::{TcpConnector, TcpConnectorService},
+    ConnectError, ConnectInfo, Connector, ConnectorService, Host, Resolve, Resolver, ResolverService,
 };
 use futures_core::future::LocalBoxFuture;
 use vh::*;
@@ -84,27 +98,30 @@ mod conn {
         }
     }
 
-    /// request type: either a `String` (the crate's own `Host for String`) or a custom `Host` impl
-    #[derive(Clone, Debug)]
+    /// request type: a `String` or a `&'static str` (the crate's own `Host for String` / `Host for &'static str`)
+    /// or a custom `Host` impl
+    #[derive(Clone, Debug, PartialEq)]
     pub enum HostReq {
         S(String),
+        T(&'static str),
         H(String, Option<u16>),
     }
     impl Host for HostReq {
         fn hostname(&self) -> &str {
             match self {
                 HostReq::S(s) => Host::hostname(s),
+                HostReq::T(s) => Host::hostname(s),
                 HostReq::H(h, _) => h,
             }
         }
         fn port(&self) -> Option<u16> {
             match self {
                 HostReq::S(s) => Host::port(s),
+                HostReq::T(s) => Host::port(s),
                 HostReq::H(_, p) => *p,
             }
         }
     }
-
     /// address template of a resolver script: endpoint, or ip + (fixed port | the port passed to lookup)
     #[derive(Clone, Debug)]
     pub enum AddrT {
@@ -263,8 +280,65 @@ async fn direct_connect(addr: SocketAddr, local: Option<IpAddr>) -> std::io::Res
     }
 }
 
+/// construction paths (`<base>:<path>`); `k`/`kc` only for `resolve`, `d*` only with the default resolver
+const PATHS: [&str; 11] = ["s", "f", "cs", "cf", "sc", "fc", "k", "kc", "d", "ds", "df"];
+
+/// Obtain a service from a factory along a construction path.  `$fac`: the configured factory
+/// (`Connector::new(resolver)`, `Resolver::custom(r)`, `TcpConnector`, `TlsConnector::new(config)`);
+/// `s` = the inherent `service()` method, `f` = `ServiceFactory::new_service`, `c` before = on a clone of
+/// the factory (the original is dropped first), `c` after = a clone of the service (ditto);
+/// `k` = the service constructed directly; `d` = `Default` of the service, `ds` / `df` = of the factory.
+macro_rules! build_svc {
+    ($path:expr, $req:ty, fac = $fac:expr, direct = $k:expr, dsvc = $dsvc:expr, dfac = $dfac:expr) => {{
+        async {
+            match $path {
+                "s" => $fac.service(),
+                "f" => actix_service::ServiceFactory::<$req>::new_service(&$fac, ()).await.unwrap(),
+                "cs" => {
+                    let a = $fac;
+                    let b = a.clone();
+                    drop(a);
+                    b.service()
+                }
+                "cf" => {
+                    let a = $fac;
+                    let b = a.clone();
+                    drop(a);
+                    actix_service::ServiceFactory::<$req>::new_service(&b, ()).await.unwrap()
+                }
+                "sc" => {
+                    let a = $fac.service();
+                    let b = a.clone();
+                    drop(a);
+                    b
+                }
+                "fc" => {
+                    let a = actix_service::ServiceFactory::<$req>::new_service(&$fac, ()).await.unwrap();
+                    let b = a.clone();
+                    drop(a);
+                    b
+                }
+                "k" => $k,
+                "kc" => {
+                    let a = $k;
+                    let b = a.clone();
+                    drop(a);
+                    b
+                }
+                "d" => $dsvc,
+                "ds" => $dfac.service(),
+                _ => actix_service::ServiceFactory::<$req>::new_service(&$dfac, ()).await.unwrap(),
+            }
+        }
+    }};
+}
+
 struct ConnOp {
     via: String,
+    /// how the service is obtained from its factory: `<base>[:<path>]`, see `build_svc!`
+    path: String,
+    /// the request is made with `ConnectInfo::from(host)` instead of `ConnectInfo::new(host)`
+    from: bool,
     res: Option<Option<Vec<AddrT>>>, // None = default resolver; Some(None)=err; Some(Some(v))=ok
     host: HostReq,
     with: Option<SocketAddr>,
@@ -282,8 +356,15 @@ fn parse_conn_op(cx: &Ctx, ws: &[&str]) -> Option<ConnOp> {
     if ws.len() < 4 {
         return None;
     }
-    let via = ws[1].to_string();
-    if !["full", "resolve", "tcp"].contains(&ws[1]) {
+    let (via, path) = match ws[1].split(':').collect::<Vec<_>>().as_slice() {
+        [b] => (b.to_string(), "s".to_string()),
+        [b, p] => (b.to_string(), p.to_string()),
+        _ => return None,
+    };
+    if !["full", "resolve", "tcp"].contains(&via.as_str()) || !PATHS.contains(&path.as_str()) {
+        return None;
+    }
+    if (path == "k" || path == "kc") && via != "resolve" {
         return None;
     }
     let res = if ws[2].starts_with("dflt=") {
@@ -301,6 +382,9 @@ fn parse_conn_op(cx: &Ctx, ws: &[&str]) -> Option<ConnOp> {
     };
     let host = if let Some(s) = ws[3].strip_prefix("s=") {
         HostReq::S(cx.subst(s)?)
+    } else if let Some(s) = ws[3].strip_prefix("t=") {
+        // `&'static str` request (leaked: a test process)
+        HostReq::T(Box::leak(cx.subst(s)?.into_boxed_str()))
     } else if let Some(s) = ws[3].strip_prefix("h=") {
         let (h, p) = s.rsplit_once(',')?;
         let p = if p == "-" { None } else { Some(cx.subst(p)?.parse::<u16>().ok()?) };
@@ -308,9 +392,18 @@ fn parse_conn_op(cx: &Ctx, ws: &[&str]) -> Option<ConnOp> {
     } else {
         return None;
     };
+    // a `Default` path has no configured resolver: it goes with `dflt=` only; a directly constructed custom
+    // resolver service needs a script (the bare TCP connector has no resolver at all)
+    if via != "tcp" && path.starts_with('d') && res.is_some() {
+        return None;
+    }
+    if path.starts_with('k') && res.is_none() {
+        return None;
+    }
     let mut with = None;
     let mut steps = vec![];
-    for (k, w) in ws[4..].iter().enumerate() {
+    let from = ws.get(4) == Some(&"from");
+    for (k, w) in ws[if from { 5 } else { 4 }..].iter().enumerate() {
         if let Some(a) = w.strip_prefix("with=") {
             if k != 0 {
                 return None;
@@ -332,12 +425,13 @@ fn parse_conn_op(cx: &Ctx, ws: &[&str]) -> Option<ConnOp> {
             return None;
         }
     }
-    Some(ConnOp { via, res, host, with, steps })
+    Some(ConnOp { via, path, from, res, host, with, steps })
 }
 
 fn build_info(op: &ConnOp) -> (ConnectInfo<HostReq>, Option<IpAddr>) {
     let mut ci = match op.with {
         Some(a) => ConnectInfo::with_addr(op.host.clone(), a),
+        None if op.from => ConnectInfo::from(op.host.clone()),
         None => ConnectInfo::new(op.host.clone()),
     };
     let mut local = None;
@@ -371,9 +465,14 @@ static ENV_RETRIES: std::sync::atomic::AtomicUsize = std::sync::atomic::AtomicUs
 fn run_conn_op_attempt(rt: &tokio::runtime::Runtime, cx: &Ctx, op: &ConnOp, rep: &mut T3Sink, attempt: usize) -> String {
     let mut env98 = false;
     let log = Rc::new(RefCell::new(vec![]));
-    let resolver = match &op.res {
+    let script_resolver = || match &op.res {
+        Some(script) => ScriptResolver { script: script.clone(), log: log.clone() },
+        None => unreachable!(),
+    };
+    // the configured resolver factory
+    let resolver = || match &op.res {
         None => Resolver::default(),
-        Some(script) => Resolver::custom(ScriptResolver { script: script.clone(), log: log.clone() }),
+        Some(_) => Resolver::custom(script_resolver()),
     };
     let (ci, local) = build_info(op);
     // facts about the request, taken before it is consumed (inputs of the oracle)
@@ -383,32 +482,42 @@ fn run_conn_op_attempt(rt: &tokio::runtime::Runtime, cx: &Ctx, op: &ConnOp, rep:
     let literal = is_ip_literal(&hostname);
 
     enum Out {
-        Resolved(Vec<SocketAddr>, String, u16),
-        Stream(SocketAddr, Option<IpAddr>, actix_rt::net::TcpStream),
+        Resolved(Vec<SocketAddr>, String, u16, HostReq),
+        Stream(SocketAddr, Option<IpAddr>, actix_rt::net::TcpStream, HostReq),
         Err(ConnectError),
         Watchdog,
         Panic,
     }
     let via = op.via.clone();
+    let path = op.path.as_str();
+    type Req = ConnectInfo<HostReq>;
     let r = catch(|| {
         rt.block_on(async {
             let fut = async {
                 match via.as_str() {
-                    "resolve" => match resolver.service().call(ci).await {
-                        Ok(ci) => Out::Resolved(ci.addrs().collect(), ci.hostname().to_string(), ci.port()),
-                        Err(e) => Out::Err(e),
-                    },
-                    "tcp" => match TcpConnector::default().service().call(ci).await {
-                        Ok(c) => {
-                            let (io, _) = c.into_parts();
-                            Out::Stream(io.peer_addr().unwrap(), io.local_addr().ok().map(|a| a.ip()), io)
+                    "resolve" => {
+                        let svc: ResolverService =
+                            build_svc!(path, Req, fac = resolver(), direct = ResolverService::custom(script_resolver()), dsvc = ResolverService::default(), dfac = Resolver::default()).await;
+                        match svc.call(ci).await {
+                            Ok(ci) => Out::Resolved(ci.addrs().collect(), ci.hostname().to_string(), ci.port(), ci.request().clone()),
+                            Err(e) => Out::Err(e),
                         }
-                        Err(e) => Out::Err(e),
-                    },
-                    _ => match Connector::new(resolver).service().call(ci).await {
+                    }
+                    "tcp" => {
+                        let svc: TcpConnectorService =
+                            build_svc!(path, Req, fac = TcpConnector::default(), direct = if true { unreachable!() } else { TcpConnectorService::default() }, dsvc = TcpConnectorService::default(), dfac = TcpConnector::default()).await;
+                        match svc.call(ci).await {
+                            Ok(c) => {
+                                let (io, req) = c.into_parts();
+                                Out::Stream(io.peer_addr().unwrap(), io.local_addr().ok().map(|a| a.ip()), io, req)
+                            }
+                            Err(e) => Out::Err(e),
+                        }
+                    }
+                    _ => match build_svc!(path, Req, fac = Connector::new(resolver()), direct = if true { unreachable!() } else { ConnectorService::default() }, dsvc = ConnectorService::default(), dfac = Connector::default()).await.call(ci).await {
                         Ok(c) => {
-                            let (io, _) = c.into_parts();
-                            Out::Stream(io.peer_addr().unwrap(), io.local_addr().ok().map(|a| a.ip()), io)
+                            let (io, req) = c.into_parts();
+                            Out::Stream(io.peer_addr().unwrap(), io.local_addr().ok().map(|a| a.ip()), io, req)
                         }
                         Err(e) => Out::Err(e),
                     },
@@ -429,18 +538,18 @@ fn run_conn_op_attempt(rt: &tokio::runtime::Runtime, cx: &Ctx, op: &ConnOp, rep:
         format!("[{}]", lookups.iter().map(|(h, p)| format!("{}:{}", if h.is_empty() { "~" } else { h }, cx.canon_port(*p))).collect::<Vec<_>>().join(","))
     };
     let connected_to = match &r {
-        Out::Stream(peer, _, _) => cx.eps.iter().position(|e| e.addr == *peer),
+        Out::Stream(peer, _, _, _) => cx.eps.iter().position(|e| e.addr == *peer),
         _ => None,
     };
     let acc = cx.accepts(connected_to);
     let res = match &r {
-        Out::Resolved(addrs, h, p) => format!(
+        Out::Resolved(addrs, h, p, _) => format!(
             "ok addrs=[{}] host={} port={}",
             addrs.iter().map(|a| cx.canon(a)).collect::<Vec<_>>().join(";"),
             if h.is_empty() { "~" } else { h },
             cx.canon_port(*p)
         ),
-        Out::Stream(peer, l, _) => match local {
+        Out::Stream(peer, l, _, _) => match local {
             Some(_) => format!("ok peer={} local={}", cx.canon(peer), l.map(|x| x.to_string()).unwrap_or_else(|| "?".into())),
             None => format!("ok peer={}", cx.canon(peer)),
         },
@@ -494,7 +603,7 @@ fn run_conn_op_attempt(rt: &tokio::runtime::Runtime, cx: &Ctx, op: &ConnOp, rep:
             }
         }
         (Err(want), _) => fail(format!("expected error {want}, got {res}")),
-        (Ok(addrs), Out::Resolved(got, h, p)) => {
+        (Ok(addrs), Out::Resolved(got, h, p, _)) => {
             if got != addrs || *h != hostname || *p != eff_port {
                 fail(format!("resolver service returned {res}, expected addresses {:?}", addrs.iter().map(|a| cx.canon(a)).collect::<Vec<_>>()));
             }
@@ -524,7 +633,7 @@ fn run_conn_op_attempt(rt: &tokio::runtime::Runtime, cx: &Ctx, op: &ConnOp, rep:
             }
             let _ = cx.accepts(None); // discard the accepts caused by the reference dialling
             match (first_ok, last_err, &r) {
-                (Some(a), _, Out::Stream(peer, l, _)) => {
+                (Some(a), _, Out::Stream(peer, l, _, _)) => {
                     if *peer != a {
                         fail(format!("connected to {} but the first connectable address in order is {}", cx.canon(peer), cx.canon(&a)));
                     }
@@ -558,8 +667,14 @@ fn run_conn_op_attempt(rt: &tokio::runtime::Runtime, cx: &Ctx, op: &ConnOp, rep:
         }
         _ => fail(format!("unexpected result shape {res}")),
     }
+    // the request handed in comes back with the result
+    if let Out::Stream(_, _, _, req) | Out::Resolved(_, _, _, req) = &r {
+        if *req != op.host {
+            fail(format!("the result carries the request {req:?}, not the one handed in ({:?})", op.host));
+        }
+    }
     match &r {
-        Out::Stream(_, _, io) => {
+        Out::Stream(_, _, io, _) => {
             let _ = io.set_linger(Some(Duration::ZERO));
         }
         Out::Err(ConnectError::Io(e)) => env98 |= e.raw_os_error() == Some(EADDRINUSE),
@@ -1431,11 +1546,41 @@ mod acc {
         dropped: bool,
     }
 
-    pub struct AccCase {
-        rsvc: a_rustls::AcceptorService,
-        osvc: a_ossl::AcceptorService,
-        max: usize,
+    /// an acceptor factory of each flavour, configured alike; `tmo_ms` is the oracle's own bookkeeping of the
+    /// configuration history (`new`: the documented default, `set_handshake_timeout(t)`: t, `clone`: the
+    /// original's), not read back from the crate
+    struct FacPair {
+        r: a_rustls::Acceptor,
+        o: a_ossl::Acceptor,
         tmo_ms: u64,
+    }
+    /// the services `new_service` built from a factory pair, with the timeout the factory had at that moment
+    struct SvcPair {
+        r: a_rustls::AcceptorService,
+        o: a_ossl::AcceptorService,
+        tmo_ms: u64,
+    }
+    fn new_services(f: &FacPair) -> SvcPair {
+        let w = noop();
+        let r = match pollu(&w, |cx| Pin::new(&mut ServiceFactory::<Dx>::new_service(&f.r, ())).poll(cx)) {
+            Poll::Ready(Ok(s)) => s,
+            _ => unreachable!(),
+        };
+        let o = match pollu(&w, |cx| Pin::new(&mut ServiceFactory::<Dx>::new_service(&f.o, ())).poll(cx)) {
+            Poll::Ready(Ok(s)) => s,
+            _ => unreachable!(),
+        };
+        SvcPair { r, o, tmo_ms: f.tmo_ms }
+    }
+    const MAX_FACS: usize = 8;
+
+    pub struct AccCase {
+        /// factories and services of this thread in order of creation; number 0 of each is what the case
+        /// header builds (`Acceptor::new`, `set_handshake_timeout(tmo)` unless `tmo=default`, `new_service`)
+        facs: Vec<FacPair>,
+        svcs: Vec<SvcPair>,
+        default_tmo_ms: u64,
+        max: usize,
         conns: Vec<ConnRec>,
         rflag: Arc<Flag>,
         start: tokio::time::Instant,
@@ -1475,27 +1620,19 @@ mod acc {
             if let Some(m) = max {
                 actix_tls::accept::max_concurrent_tls_connect(m);
             }
-            let mut ra = a_rustls::Acceptor::new((*sh.rustls_server).clone());
-            let mut oa = a_ossl::Acceptor::new(sh.openssl_server.clone());
+            let mut f0 = FacPair { r: a_rustls::Acceptor::new((*sh.rustls_server).clone()), o: a_ossl::Acceptor::new(sh.openssl_server.clone()), tmo_ms: default_tmo_ms };
             if let Some(t) = tmo_ms {
-                ra.set_handshake_timeout(Duration::from_millis(t));
-                oa.set_handshake_timeout(Duration::from_millis(t));
+                f0.r.set_handshake_timeout(Duration::from_millis(t));
+                f0.o.set_handshake_timeout(Duration::from_millis(t));
+                f0.tmo_ms = t;
             }
             // first use of the thread-local counter on this (fresh) thread: it takes the current limit
-            let w = noop();
-            let rsvc = match pollu(&w, |cx| Pin::new(&mut ServiceFactory::<Dx>::new_service(&ra, ())).poll(cx)) {
-                Poll::Ready(Ok(s)) => s,
-                _ => unreachable!(),
-            };
-            let osvc = match pollu(&w, |cx| Pin::new(&mut ServiceFactory::<Dx>::new_service(&oa, ())).poll(cx)) {
-                Poll::Ready(Ok(s)) => s,
-                _ => unreachable!(),
-            };
+            let s0 = new_services(&f0);
             AccCase {
-                rsvc,
-                osvc,
+                facs: vec![f0],
+                svcs: vec![s0],
+                default_tmo_ms,
                 max: max.unwrap_or(default_max),
-                tmo_ms: tmo_ms.unwrap_or(default_tmo_ms),
                 conns: vec![],
                 rflag: Flag::new(),
                 start: tokio::time::Instant::now(),
@@ -1518,33 +1655,77 @@ mod acc {
         fn op_ready(&mut self) -> String {
             self.rflag.clear();
             let w = Waker::from(self.rflag.clone());
-            // both services share the per-thread counter; ask both and require agreement
-            let a = pollu(&w, |cx| Service::<Dx>::poll_ready(&self.rsvc, cx)).is_ready();
-            let b = pollu(&w, |cx| Service::<Dx>::poll_ready(&self.osvc, cx)).is_ready();
-            if a != b {
-                self.t3.push(format!("rustls and openssl acceptor services on one thread disagree on readiness: {a} vs {b}"));
-            }
+            // every acceptor service of the thread (either flavour, whichever factory or clone it was built
+            // from) gates on the one per-thread counter: ask them all (service 0 last, its answer is the
+            // observation) and hold each answer against the property
             // property: not ready exactly while the handshakes in progress have reached the maximum
             let inprog = self.alive();
-            if a != (inprog < self.max) {
-                self.t3.push(format!("poll_ready is {} with {inprog} handshakes in progress and max {}", if a { "Ready" } else { "Pending" }, self.max));
+            let mut a = true;
+            for (i, sv) in self.svcs.iter().enumerate() {
+                let ra = pollu(&w, |cx| Service::<Dx>::poll_ready(&sv.r, cx)).is_ready();
+                let oa = pollu(&w, |cx| Service::<Dx>::poll_ready(&sv.o, cx)).is_ready();
+                for (lib, x) in [("rustls", ra), ("openssl", oa)] {
+                    if x != (inprog < self.max) {
+                        self.t3.push(format!("poll_ready of {lib} acceptor service {i} is {} with {inprog} handshakes in progress on its thread and max {}", if x { "Ready" } else { "Pending" }, self.max));
+                    }
+                }
+                if i == 0 {
+                    a = ra;
+                }
             }
             self.last_ready_pending = !a;
             if a { "ready".into() } else { "pending".into() }
         }
 
-        fn op_call(&mut self, lib: &str, cli: &str) -> Option<String> {
+        fn op_fnew(&mut self) -> Option<String> {
+            if self.facs.len() >= MAX_FACS {
+                return None;
+            }
+            let sh = pki::shared();
+            self.facs.push(FacPair { r: a_rustls::Acceptor::new((*sh.rustls_server).clone()), o: a_ossl::Acceptor::new(sh.openssl_server.clone()), tmo_ms: self.default_tmo_ms });
+            Some(format!("ok f={}", self.facs.len() - 1))
+        }
+        fn op_fset(&mut self, f: usize, ms: u64) -> Option<String> {
+            let fac = self.facs.get_mut(f)?;
+            fac.r.set_handshake_timeout(Duration::from_millis(ms));
+            fac.o.set_handshake_timeout(Duration::from_millis(ms));
+            fac.tmo_ms = ms;
+            Some("ok".into())
+        }
+        fn op_fclone(&mut self, f: usize) -> Option<String> {
+            if self.facs.len() >= MAX_FACS {
+                return None;
+            }
+            let fac = self.facs.get(f)?;
+            // property: a copy of a configured factory (what every worker of a server gets) is configured alike
+            let c = FacPair { r: fac.r.clone(), o: fac.o.clone(), tmo_ms: fac.tmo_ms };
+            self.facs.push(c);
+            Some(format!("ok f={}", self.facs.len() - 1))
+        }
+        fn op_fsvc(&mut self, f: usize) -> Option<String> {
+            if self.svcs.len() >= MAX_FACS {
+                return None;
+            }
+            let s = new_services(self.facs.get(f)?);
+            self.svcs.push(s);
+            Some(format!("ok s={}", self.svcs.len() - 1))
+        }
+
+        fn op_call(&mut self, lib: &str, cli: &str, sv: usize) -> Option<String> {
+            if sv >= self.svcs.len() || !["r", "o"].contains(&lib) {
+                return None;
+            }
             let (sa, hs) = tokio::io::duplex(1 << 22);
             let (cd, hd) = tokio::io::duplex(1 << 22);
             let cfut = new_client(cli, cd)?;
             let ctl = Arc::new(Ctl::default());
             let sfut: SFut = match lib {
                 "r" => {
-                    let f = self.rsvc.call(Dx::with_ctl(sa, ctl.clone()));
+                    let f = self.svcs[sv].r.call(Dx::with_ctl(sa, ctl.clone()));
                     Box::pin(async move { f.await.map(|s| Box::new(s) as BoxSrv).map_err(classify) })
                 }
                 "o" => {
-                    let f = self.osvc.call(Dx::with_ctl(sa, ctl.clone()));
+                    let f = self.svcs[sv].o.call(Dx::with_ctl(sa, ctl.clone()));
                     Box::pin(async move { f.await.map(|s| Box::new(s) as BoxSrv).map_err(classify) })
                 }
                 _ => return None,
@@ -1562,7 +1743,8 @@ mod acc {
                 ctl,
                 lib: lib.to_string(),
                 finished: false,
-                deadline_ms: self.now_ms() + self.tmo_ms,
+                // the timeout configured for the factory this service was built from, at the time it was built
+                deadline_ms: self.now_ms() + self.svcs[sv].tmo_ms,
                 produced: 0,
                 delivered: 0,
                 seen_at_last_poll: 0,
@@ -2126,7 +2308,15 @@ mod acc {
             let idx = |s: &str| s.parse::<usize>().ok();
             let r: Option<String> = match ws {
                 ["ready"] => Some(self.op_ready()),
-                ["call", lib, cli] => self.op_call(lib, cli),
+                ["call", lib, cli] => self.op_call(lib, cli, 0),
+                ["call", lib, cli, sv] => canon_num(sv, 64).and_then(|sv| self.op_call(lib, cli, sv as usize)),
+                ["fnew"] => self.op_fnew(),
+                ["fset", f, ms] => match (canon_num(f, 64), canon_num(ms, 20_000)) {
+                    (Some(f), Some(ms)) if ms >= 1 => self.op_fset(f as usize, ms),
+                    _ => None,
+                },
+                ["fclone", f] => canon_num(f, 64).and_then(|f| self.op_fclone(f as usize)),
+                ["fsvc", f] => canon_num(f, 64).and_then(|f| self.op_fsvc(f as usize)),
                 ["poll", k] => idx(k).and_then(|k| self.op_poll(k)),
                 ["drop", k] => idx(k).and_then(|k| self.op_drop(k)),
                 ["cflight", k, mode] => idx(k).and_then(|k| self.op_cflight(k, mode)),
@@ -2191,7 +2381,7 @@ mod tconn {
         time::Duration,
     };
 
-    use actix_service::Service;
+    use actix_service::{Service, ServiceFactory};
     use actix_tls::connect::{openssl as c_ossl, rustls_0_23 as c_rustls, Connection};
     use tokio::io::{AsyncRead, AsyncReadExt, AsyncWrite, AsyncWriteExt, ReadBuf};
 
@@ -2252,6 +2442,8 @@ mod tconn {
 
     pub struct TOp {
         pub lib: String,
+        /// construction path of the connector service (`k` = `TlsConnector::service(config)`)
+        pub path: String,
         pub srv: String,
         pub names: String,
         pub trusted: bool,
@@ -2365,13 +2557,57 @@ mod tconn {
                             };
                             // client side: the connector service under test
                             let cfut = async {
+                                type Req = Connection<HostReq, Dx>;
+                                let path = op.path.as_str();
                                 let r: Result<super::acc::BoxIo, std::io::Error> = match lib {
                                     "r" => {
-                                        let svc = c_rustls::TlsConnector::service(pk.rustls_client.clone());
+                                        let svc: c_rustls::TlsConnectorService = match path {
+                                            "k" => c_rustls::TlsConnector::service(pk.rustls_client.clone()),
+                                            "kc" => {
+                                                let a = c_rustls::TlsConnector::service(pk.rustls_client.clone());
+                                                let b = a.clone();
+                                                drop(a);
+                                                b
+                                            }
+                                            "f" => ServiceFactory::<Req>::new_service(&c_rustls::TlsConnector::new(pk.rustls_client.clone()), ()).await.unwrap(),
+                                            "cf" => {
+                                                let a = c_rustls::TlsConnector::new(pk.rustls_client.clone());
+                                                let b = a.clone();
+                                                drop(a);
+                                                ServiceFactory::<Req>::new_service(&b, ()).await.unwrap()
+                                            }
+                                            _ => {
+                                                let a = ServiceFactory::<Req>::new_service(&c_rustls::TlsConnector::new(pk.rustls_client.clone()), ()).await.unwrap();
+                                                let b = a.clone();
+                                                drop(a);
+                                                b
+                                            }
+                                        };
                                         svc.call(conn).await.map(|c| Box::new(c.into_parts().0) as super::acc::BoxIo)
                                     }
                                     _ => {
-                                        let svc = c_ossl::TlsConnector::service(pk.openssl_client.clone());
+                                        let svc: c_ossl::TlsConnectorService = match path {
+                                            "k" => c_ossl::TlsConnector::service(pk.openssl_client.clone()),
+                                            "kc" => {
+                                                let a = c_ossl::TlsConnector::service(pk.openssl_client.clone());
+                                                let b = a.clone();
+                                                drop(a);
+                                                b
+                                            }
+                                            "f" => ServiceFactory::<Req>::new_service(&c_ossl::TlsConnector::new(pk.openssl_client.clone()), ()).await.unwrap(),
+                                            "cf" => {
+                                                let a = c_ossl::TlsConnector::new(pk.openssl_client.clone());
+                                                let b = a.clone();
+                                                drop(a);
+                                                ServiceFactory::<Req>::new_service(&b, ()).await.unwrap()
+                                            }
+                                            _ => {
+                                                let a = ServiceFactory::<Req>::new_service(&c_ossl::TlsConnector::new(pk.openssl_client.clone()), ()).await.unwrap();
+                                                let b = a.clone();
+                                                drop(a);
+                                                b
+                                            }
+                                        };
                                         svc.call(conn).await.map(|c| Box::new(c.into_parts().0) as super::acc::BoxIo)
                                     }
                                 };
@@ -2418,6 +2654,68 @@ fn gen_c19(a: &Args, w: &mut dyn Write) {
         format!("dflt={}", ips.join(";"))
     };
     let mut n = 0;
+    // construction paths, rotated through every grid below: `via` = `<base>[:<path>]`
+    let mut pc = 0usize;
+    let mut via = |base: &str, dflt_res: bool| -> String {
+        pc += 1;
+        let mut ps: Vec<&str> = vec!["s", "f", "cs", "cf", "sc", "fc"];
+        if base == "resolve" && !dflt_res {
+            ps.extend(["k", "kc"]);
+        }
+        if base == "tcp" || dflt_res {
+            ps.extend(["d", "ds", "df"]);
+        }
+        match ps[pc % ps.len()] {
+            "s" if pc % 2 == 0 => base.to_string(),
+            p => format!("{base}:{p}"),
+        }
+    };
+    // (0) every way of obtaining a service from its factory (`service()`, `ServiceFactory::new_service`, clones of
+    //     the factory / of the service, direct construction, `Default`), each with a custom resolver whose
+    //     answer differs from what the OS resolver would say for the same name, with an empty and a failing
+    //     resolver, an IP literal, pre-set addresses, and the bare TCP connector
+    for p in ["f", "cf", "fc", "s", "cs", "sc"] {
+        writeln!(w, "case path-{p} kind=conn eps=L4,L4,C4").unwrap();
+        for base in ["full", "resolve"] {
+            writeln!(w, "conn {base}:{p} ok=e1 s=localhost:@0").unwrap();
+            writeln!(w, "conn {base}:{p} ok= s=localhost:@0").unwrap();
+            writeln!(w, "conn {base}:{p} err s=localhost:@0").unwrap();
+            writeln!(w, "conn {base}:{p} ok=e2;e1;e0 s=path.test:80").unwrap();
+            writeln!(w, "conn {base}:{p} ok=127.0.0.1:P h=path.test,@1 from").unwrap();
+            writeln!(w, "conn {base}:{p} ok=e1 t=127.0.0.1:@0").unwrap();
+            writeln!(w, "conn {base}:{p} ok=e1;e0 t=path.test:@2").unwrap();
+            writeln!(w, "conn {base}:{p} err s=path.test with=e1").unwrap();
+            writeln!(w, "conn {base}:{p} ok=e0 s=path.test addrs=e2;e1 port=@0").unwrap();
+        }
+        writeln!(w, "conn tcp:{p} err s=path.test addrs=e2;e1").unwrap();
+        writeln!(w, "conn tcp:{p} err s=path.test:@0").unwrap();
+        writeln!(w, "conn tcp:{p} ok=e0 s=127.0.0.1:@0 from").unwrap();
+        writeln!(w, "conn tcp:{p} ok=e0 s=path.test with=e0 local=127.0.0.1").unwrap();
+    }
+    writeln!(w, "case path-direct kind=conn eps=L4,L4,C4").unwrap();
+    for p in ["k", "kc"] {
+        writeln!(w, "conn resolve:{p} ok=e1 s=localhost:@0").unwrap();
+        writeln!(w, "conn resolve:{p} ok= s=localhost:@0").unwrap();
+        writeln!(w, "conn resolve:{p} err s=path.test:1").unwrap();
+        writeln!(w, "conn resolve:{p} err s=127.0.0.1:@1").unwrap();
+        writeln!(w, "conn resolve:{p} ok=e0 s=path.test addr=e1").unwrap();
+    }
+    writeln!(w, "case path-default kind=conn eps=L4,L4,C4").unwrap();
+    for p in ["d", "ds", "df", "s", "f", "cf"] {
+        for base in ["full", "resolve"] {
+            writeln!(w, "conn {base}:{p} {dflt} s=localhost:@0").unwrap();
+            writeln!(w, "conn {base}:{p} {dflt} s=nx.invalid:@0").unwrap();
+            writeln!(w, "conn {base}:{p} {dflt} s=127.0.0.1:@1").unwrap();
+            writeln!(w, "conn {base}:{p} {dflt} s=nx.invalid with=e1").unwrap();
+        }
+        writeln!(w, "conn tcp:{p} err s=path.test addrs=e2;e0").unwrap();
+        writeln!(w, "conn tcp:{p} {dflt} s=localhost:@0").unwrap();
+    }
+    // malformed / inapplicable paths
+    for bad in ["conn full:k ok=e0 s=a.test", "conn tcp:kc err s=a.test addr=e0", "conn full:d ok=e0 s=a.test", "conn resolve:df err s=a.test", "conn full:x ok=e0 s=a.test", "conn full: ok=e0 s=a.test", "conn full:f:f ok=e0 s=a.test", "conn :f ok=e0 s=a.test", "conn full:f ok=e0 s=a.test port=1 from"] {
+        writeln!(w, "{bad}").unwrap();
+    }
+    writeln!(w, "conn resolve:k {dflt} s=localhost").unwrap();
     // (1) every live/closed pattern of length 0..4, through the resolver, pre-set, and the bare TCP connector
     for len in 0..=4usize {
         for mask in 0..(1u32 << len) {
@@ -2441,14 +2739,14 @@ fn gen_c19(a: &Args, w: &mut dyn Write) {
                 let l = list.join(";");
                 let locals: &[&str] = if fam == 0 { &[""] } else { &["", " local=127.0.0.1", " local=::1"] };
                 for loc in locals {
-                    writeln!(w, "conn full ok={l} s=pat.test:80{loc}").unwrap();
-                    writeln!(w, "conn full err s=pat.test:80 addrs={l}{loc}").unwrap();
-                    writeln!(w, "conn tcp err s=pat.test addrs={l}{loc}").unwrap();
+                    writeln!(w, "conn {} ok={l} s=pat.test:80{loc}", via("full", false)).unwrap();
+                    writeln!(w, "conn {} err s=pat.test:80 addrs={l}{loc}", via("full", false)).unwrap();
+                    writeln!(w, "conn {} err s=pat.test addrs={l}{loc}", via("tcp", false)).unwrap();
                     if len == 1 {
-                        writeln!(w, "conn full err s=pat.test with=e0{loc}").unwrap();
-                        writeln!(w, "conn tcp ok= h=pat.test,- addr=e0{loc}").unwrap();
+                        writeln!(w, "conn {} err s=pat.test with=e0{loc}", via("full", false)).unwrap();
+                        writeln!(w, "conn {} ok= h=pat.test,- addr=e0{loc}", via("tcp", false)).unwrap();
                     }
-                    writeln!(w, "conn resolve ok={l} s=pat.test:80{loc}").unwrap();
+                    writeln!(w, "conn {} ok={l} s=pat.test:80{loc}", via("resolve", false)).unwrap();
                 }
             }
         }
@@ -2458,8 +2756,8 @@ fn gen_c19(a: &Args, w: &mut dyn Write) {
     writeln!(w, "case lasterr kind=conn eps=C4,C6,C4,C6,L4,L6").unwrap();
     for loc in ["127.0.0.1", "::1", "127.0.0.3"] {
         for l in ["e0;e1", "e1;e0", "e0;e1;e2", "e1;e0;e3", "e0;e1;e2;e3", "e3;e2;e1;e0", "e1;e1;e0", "e0;e0;e1", "e5;e0", "e4;e1", "e1;e4", "e0;e5"] {
-            writeln!(w, "conn full ok={l} s=last.test:1 local={loc}").unwrap();
-            writeln!(w, "conn tcp err s=last.test addrs={l} local={loc}").unwrap();
+            writeln!(w, "conn {} ok={l} s=last.test:1 local={loc}", via("full", false)).unwrap();
+            writeln!(w, "conn {} err s=last.test addrs={l} local={loc}", via("tcp", false)).unwrap();
         }
     }
     // (2) host strings, ports, IP literals, precedence of request port / set_port / with_addr
@@ -2473,18 +2771,21 @@ fn gen_c19(a: &Args, w: &mut dyn Write) {
         writeln!(w, "case host-{k} kind=conn eps=L4,C4,L6").unwrap();
         for res in ["ok=e0", "ok=127.0.0.1:P", "ok=127.0.0.1:P;e0", "ok=", "err", dflt.as_str()] {
             for steps in ["", " port=@0", " port=@1", " with=e0", " with=e1 port=@0", " addr=e0", " addrs=e1;e0 addr=none", " port=@1 port=@0"] {
-                for via in ["full", "resolve"] {
+                for base in ["full", "resolve"] {
                     // the OS resolver is only exercised for `localhost`, a name that cannot exist, and strict IPv4 literals
                     // (getaddrinfo also accepts inet_aton forms such as 127.0.1, which is outside the claim)
                     if res.starts_with("dflt") && !(h.starts_with("localhost") || h.starts_with("nx.invalid") || h.starts_with("127.0.0.1:@") || *h == "127.0.0.1" || h.starts_with("127.0.0.2:")) {
                         continue;
                     }
-                    writeln!(w, "conn {via} {res} s={h}{steps}").unwrap();
+                    let from = if !steps.contains("with=") && k % 3 == 0 { " from" } else { "" };
+                    // the request is a `String` or a `&'static str` (two `Host` impls with the same parsing rule)
+                    let tag = if (k + steps.len()) % 3 == 1 { "t" } else { "s" };
+                    writeln!(w, "conn {} {res} {tag}={h}{from}{steps}", via(base, res.starts_with("dflt"))).unwrap();
                 }
             }
         }
-        writeln!(w, "conn tcp err s={h}").unwrap();
-        writeln!(w, "conn tcp err s={h} port=@0").unwrap();
+        writeln!(w, "conn {} err t={h}", via("tcp", false)).unwrap();
+        writeln!(w, "conn {} err s={h} port=@0", via("tcp", false)).unwrap();
     }
     // custom Host impls: hostname and port independent of any string syntax (incl. an IPv6 literal)
     let hs = ["c.test,-", "c.test,@0", "c.test,@1", "127.0.0.1,@0", "127.0.0.1,-", "::1,@2", "::1,-", "::1,@0", "c.test:99,@0", "~,@0"];
@@ -2492,8 +2793,8 @@ fn gen_c19(a: &Args, w: &mut dyn Write) {
         writeln!(w, "case chost-{k} kind=conn eps=L4,C4,L6").unwrap();
         for res in ["ok=e0", "ok=::1:P;127.0.0.1:P", "ok=", "err"] {
             for steps in ["", " port=@0", " port=@2", " with=e2", " addrs=e1;e2;e0", " local=127.0.0.1", " local=::1 port=@2"] {
-                for via in ["full", "resolve", "tcp"] {
-                    writeln!(w, "conn {via} {res} h={h}{steps}").unwrap();
+                for base in ["full", "resolve", "tcp"] {
+                    writeln!(w, "conn {} {res} h={h}{steps}", via(base, false)).unwrap();
                 }
             }
         }
@@ -2511,7 +2812,8 @@ fn gen_c19(a: &Args, w: &mut dyn Write) {
             (0..k).map(|_| format!("e{}", rng.below(ne))).collect::<Vec<_>>().join(";")
         };
         for _ in 0..rng.range(2, 6) {
-            let via = *rng.pick(&["full", "full", "full", "resolve", "tcp"]);
+            let base = *rng.pick(&["full", "full", "full", "resolve", "tcp"]);
+            let via = via(base, false);
             let res = match rng.below(6) {
                 0 => "err".to_string(),
                 1 => "ok=".to_string(),
@@ -2522,7 +2824,7 @@ fn gen_c19(a: &Args, w: &mut dyn Write) {
                 0 => format!("s=127.0.0.1:@{}", rng.below(ne)),
                 1 => "s=127.0.0.1".to_string(),
                 2 => format!("h=::1,@{}", rng.below(ne)),
-                3 => format!("s=r.test:@{}", rng.below(ne)),
+                3 => format!("{}=r.test:@{}", rng.pick(&["s", "t"]), rng.below(ne)),
                 4 => format!("h=r.test,@{}", rng.below(ne)),
                 5 => "s=r.test:bad".to_string(),
                 _ => "s=r.test".to_string(),
@@ -2530,6 +2832,8 @@ fn gen_c19(a: &Args, w: &mut dyn Write) {
             let mut steps = String::new();
             if rng.chance(1, 6) {
                 steps.push_str(&format!(" with={}", addr(&mut rng)));
+            } else if rng.chance(1, 5) {
+                steps.push_str(" from");
             }
             for _ in 0..rng.below(3) {
                 match rng.below(5) {
@@ -2575,6 +2879,21 @@ fn gen_c19(a: &Args, w: &mut dyn Write) {
     let certs = ["a.test", "*.a.test", "a.test;b.a.test;127.0.0.1", "127.0.0.1;::1", "other.test", "*.b.a.test", "b.a.test;*.a.test"];
     let pay = [0usize, 1, 100, 5000, 65536, 16384, 333];
     let mut k = 0usize;
+    // construction paths of the TLS connector services: `TlsConnector::service(config)` (no suffix), the factory
+    // `TlsConnector::new(config)` through `ServiceFactory::new_service` (`f`), clones of the factory / the service
+    let tpaths = ["", ":f", ":cf", ":fc", ":kc"];
+    writeln!(w, "case tls-paths kind=tlsconn").unwrap();
+    for lib in ["r", "o"] {
+        for tp in tpaths {
+            writeln!(w, "tconn {lib}{tp} {} good n=a.test s=a.test:443 100", if lib == "r" { "o" } else { "r" }).unwrap();
+            writeln!(w, "tconn {lib}{tp} r good n=other.test s=a.test 1").unwrap();
+            writeln!(w, "tconn {lib}{tp} o bad n=a.test s=a.test 1").unwrap();
+            writeln!(w, "tconn {lib}{tp} r good n=a.test s=a..test 1").unwrap();
+        }
+    }
+    for bad in ["tconn r:s r good n=a.test s=a.test 1", "tconn r:d r good n=a.test s=a.test 1", "tconn r: r good n=a.test s=a.test 1", "tconn x:f r good n=a.test s=a.test 1", "tconn o:f:f r good n=a.test s=a.test 1"] {
+        writeln!(w, "{bad}").unwrap();
+    }
     for (hi, h) in thosts.iter().enumerate() {
         writeln!(w, "case tls-{hi} kind=tlsconn").unwrap();
         for c in certs {
@@ -2586,12 +2905,15 @@ fn gen_c19(a: &Args, w: &mut dyn Write) {
                 }
                 k += 1;
                 let srvs: &[&str] = if thorough { &["r", "o"] } else if k % 2 == 0 { &["r"] } else { &["o"] };
+                let tp = tpaths[k % tpaths.len()];
+                // `String` / `&'static str` requests alternate
+                let h = &(if k % 4 == 1 && h.starts_with("s=") { h.replacen("s=", "t=", 1) } else { h.clone() });
                 for srv in srvs {
-                    writeln!(w, "tconn {lib} {srv} good n={c} {h} {}", pay[k % pay.len()]).unwrap();
+                    writeln!(w, "tconn {lib}{tp} {srv} good n={c} {h} {}", pay[k % pay.len()]).unwrap();
                 }
                 if thorough || k % 3 == 0 {
                     // same certificate names, but issued by a CA the client does not trust
-                    writeln!(w, "tconn {lib} {} bad n={c} {h} {}", if k % 2 == 0 { "o" } else { "r" }, pay[(k + 1) % pay.len()]).unwrap();
+                    writeln!(w, "tconn {lib}{} {} bad n={c} {h} {}", tpaths[(k / 5) % tpaths.len()], if k % 2 == 0 { "o" } else { "r" }, pay[(k + 1) % pay.len()]).unwrap();
                 }
             }
         }
@@ -2605,7 +2927,7 @@ fn gen_c19(a: &Args, w: &mut dyn Write) {
             let lib = if h.starts_with("s=.") { "r" } else { *rng.pick(&["r", "o"]) };
             let nn = rng.range(1, 3);
             let names: Vec<&str> = (0..nn).map(|_| *rng.pick(&["a.test", "*.a.test", "b.a.test", "127.0.0.1", "::1", "other.test", "*.b.a.test", "c.b.a.test", "127.0.0.2"])).collect();
-            writeln!(w, "tconn {lib} {} {} n={} {h} {}", rng.pick(&["r", "o"]), if rng.chance(1, 5) { "bad" } else { "good" }, names.join(";"), rng.below(70000).min(65536)).unwrap();
+            writeln!(w, "tconn {lib}{} {} {} n={} {h} {}", rng.pick(&tpaths), rng.pick(&["r", "o"]), if rng.chance(1, 5) { "bad" } else { "good" }, names.join(";"), rng.below(70000).min(65536)).unwrap();
         }
         if rng.chance(1, 8) {
             writeln!(w, "{}", rng.pick(&["tconn r r good n=a.test s=a.test", "tconn x r good n=a.test s=a.test 1", "tconn r r good a.test s=a.test 1", "tconn r r good n=a.test a.test 1", "tconn r r good n=a.test s=a.test 70000", "conn full err s=a", "poll 0"])).unwrap();
@@ -2633,6 +2955,108 @@ fn gen_c18(a: &Args, w: &mut dyn Write) {
             writeln!(w, "poll {k}").unwrap();
         }
     };
+    // (F) the configuration / construction surface: `Acceptor::new`, `set_handshake_timeout`, `clone`,
+    //     `ServiceFactory::new_service` — for both flavours at once (`f*` ops act on a rustls and an OpenSSL
+    //     factory configured alike; the `call` picks the flavour).  A multi-worker server clones the factory for
+    //     every worker and builds the service from the clone: the configured timeout must be the clone's, too
+    //     (shorter and longer than the 3 s default), and every service of the thread gates on the one counter.
+    // (F1) configure, clone `depth` times, build the service from the last clone, stall the client
+    let ftmos: &[u64] = if thorough { &[100, 200, 1000, 2999, 3000, 3001, 5000] } else { &[200, 5000] };
+    let mut fi = 0usize;
+    for lib in libs {
+        for &t in ftmos {
+            for depth in 1..=(if thorough { 3 } else { 2 }) {
+                fi += 1;
+                let cli = clis[fi % 4];
+                writeln!(w, "case fac-clone-{lib}-{t}-{depth} kind=acc max=2 tmo={t}").unwrap();
+                for d in 0..depth {
+                    writeln!(w, "fclone {d}").unwrap();
+                }
+                writeln!(w, "fsvc {depth}").unwrap();
+                writeln!(w, "ready").unwrap();
+                writeln!(w, "call {lib} {cli} 1").unwrap();
+                stage(w, 0, fi % 4);
+                writeln!(w, "run {}", t - 1).unwrap();
+                writeln!(w, "run 1").unwrap();
+                writeln!(w, "run 20").unwrap();
+                writeln!(w, "ready").unwrap();
+            }
+        }
+        // a slow but legitimate handshake (3.5 s) through the clone of a factory configured with 5 s
+        writeln!(w, "case fac-slow-{lib} kind=acc max=2 tmo=5000").unwrap();
+        writeln!(w, "fclone 0").unwrap();
+        writeln!(w, "fsvc 1").unwrap();
+        writeln!(w, "call {lib} {} 1", clis[fi % 4]).unwrap();
+        stage(w, 0, 3);
+        writeln!(w, "run 3500").unwrap();
+        writeln!(w, "cflight 0 rest").unwrap();
+        writeln!(w, "run 0").unwrap();
+        writeln!(w, "echo 0 1000 7").unwrap();
+        // (F2) clones are independent copies, services keep what their factory had when they were built
+        writeln!(w, "case fac-indep-{lib} kind=acc max=4 tmo=300").unwrap();
+        for l in ["fclone 0", "fset 0 700", "fsvc 1", "fsvc 0", "fset 1 150", "fclone 1", "fsvc 2", "fset 2 1234", "fset 0 9"] {
+            writeln!(w, "{l}").unwrap();
+        }
+        for sv in 0..4 {
+            writeln!(w, "call {lib} {} {sv}", clis[sv]).unwrap();
+        }
+        for l in ["run 149", "run 1", "run 149", "run 1", "run 399", "run 1", "ready"] {
+            writeln!(w, "{l}").unwrap();
+        }
+        // (F3) factories that were never configured have the default; configured after `new`
+        writeln!(w, "case fac-new-{lib} kind=acc max=3 tmo=default").unwrap();
+        for l in ["fclone 0", "fsvc 1", "fnew", "fsvc 2", "fnew", "fset 3 250", "fclone 3", "fsvc 4"] {
+            writeln!(w, "{l}").unwrap();
+        }
+        for sv in 1..4 {
+            writeln!(w, "call {lib} {} {sv}", clis[sv]).unwrap();
+        }
+        for l in ["run 249", "run 1", "run 2749", "run 1", "ready"] {
+            writeln!(w, "{l}").unwrap();
+        }
+        // (F4) services built from clones gate on the thread's counter, and are woken through it
+        for max in 1..=2usize {
+            for ending in ["drop", "timeout", "ok"] {
+                writeln!(w, "case fac-gate-{lib}-{max}-{ending} kind=acc max={max} tmo=400").unwrap();
+                writeln!(w, "fclone 0").unwrap();
+                writeln!(w, "fsvc 1").unwrap();
+                for k in 0..max {
+                    writeln!(w, "ready").unwrap();
+                    writeln!(w, "call {} {} {}", if k == 0 { lib } else { libs[max % 2] }, clis[(max + k) % 4], (k + 1) % 2).unwrap();
+                    writeln!(w, "poll {k}").unwrap();
+                }
+                writeln!(w, "ready").unwrap(); // parks
+                match ending {
+                    "drop" => writeln!(w, "drop 0").unwrap(),
+                    "timeout" => {
+                        writeln!(w, "advance 400").unwrap();
+                        writeln!(w, "poll 0").unwrap();
+                    }
+                    _ => {
+                        writeln!(w, "cflight 0 full").unwrap();
+                        writeln!(w, "poll 0").unwrap();
+                        writeln!(w, "cflight 0 full").unwrap();
+                        writeln!(w, "poll 0").unwrap();
+                    }
+                }
+                writeln!(w, "ready").unwrap();
+                writeln!(w, "call {lib} r13 1").unwrap();
+                writeln!(w, "ready").unwrap();
+            }
+        }
+    }
+    // malformed / inapplicable factory ops
+    writeln!(w, "case fac-bad kind=acc max=2 tmo=100").unwrap();
+    for l in ["fclone 1", "fsvc 1", "fset 1 100", "fset 0 0", "fset 0 20001", "fset 0 0100", "fset 0", "fclone", "fclone 00", "fnew 1", "call r r13 1", "call r r13 00", "call r r13 x", "fsvc x"] {
+        writeln!(w, "{l}").unwrap();
+    }
+    for _ in 0..7 {
+        writeln!(w, "fnew").unwrap();
+        writeln!(w, "fsvc 0").unwrap();
+    }
+    for l in ["fnew", "fclone 0", "fsvc 0", "call o o13 7", "call o o13 8", "run 100"] {
+        writeln!(w, "{l}").unwrap();
+    }
     // (E) the data path of an accepted stream ("bytes written on either side arrive unchanged on the other"):
     //     both acceptors x four client stacks; transports with a small write window (back-pressure on the
     //     last write), short reads, or a buffer that only a flush / shutdown empties; payloads 0..64 KiB;
@@ -2939,10 +3363,34 @@ fn gen_c18(a: &Args, w: &mut dyn Write) {
         let t = *rng.pick(&[100u64, 150, 300, 1000, 2500, 5000]);
         writeln!(w, "case rnd-{c} kind=acc max={max} tmo={t}").unwrap();
         let mut calls = 0usize;
+        let (mut nf, mut ns) = (1usize, 1usize);
         let nops = rng.range(8, 40);
         for _ in 0..nops {
             let k = rng.below(calls.max(1));
-            match rng.below(20) {
+            match rng.below(24) {
+                20 => match rng.below(3) {
+                    0 if nf < 8 => {
+                        writeln!(w, "fnew").unwrap();
+                        nf += 1;
+                    }
+                    1 if nf < 8 => {
+                        writeln!(w, "fclone {}", rng.below(nf)).unwrap();
+                        nf += 1;
+                    }
+                    _ => writeln!(w, "fset {} {}", rng.below(nf), rng.pick(&[50u64, 100, 101, 333, 1000, 2999, 3000, 3001, 4000])).unwrap(),
+                },
+                21 | 22 if ns < 8 => {
+                    writeln!(w, "fsvc {}", rng.below(nf)).unwrap();
+                    ns += 1;
+                }
+                21 | 22 | 23 if calls < 5 => {
+                    if rng.chance(3, 4) {
+                        writeln!(w, "ready").unwrap();
+                    }
+                    writeln!(w, "call {} {} {}", rng.pick(&libs), rng.pick(&clis), rng.below(ns)).unwrap();
+                    calls += 1;
+                }
+                21 | 22 | 23 => writeln!(w, "poll {k}").unwrap(),
                 0 | 1 => writeln!(w, "ready").unwrap(),
                 2 | 3 if calls < 5 => {
                     if rng.chance(3, 4) {
@@ -2979,7 +3427,7 @@ fn gen_c18(a: &Args, w: &mut dyn Write) {
                 _ => writeln!(w, "{}", rng.pick(&["poll 9", "poll x", "cflight 0 half", "garbage 0 salt", "advance 20001", "run -1", "echo 0 1", "call x r13", "call r tls9", "ready now", "frob", "xfer 0 s2c 1 1 0 0 d all flush", "xfer 0 s2c 1 1 0 0 d all close exact", "rdy 0 r", "rdy 0 w r"])).unwrap(),
             }
         }
-        writeln!(w, "run {}", t + 1).unwrap();
+        writeln!(w, "run {}", if nf > 1 { 4001 } else { t + 1 }).unwrap();
         writeln!(w, "ready").unwrap();
     }
     // malformed headers
@@ -3080,10 +3528,20 @@ fn run_conn_group(rt: &tokio::runtime::Runtime, lines: &[String]) -> GroupOut {
                     _ => "bad-op".into(),
                 }
             }
-            ["tconn", lib @ ("r" | "o"), srv @ ("r" | "o"), ca @ ("good" | "bad"), names, host, payload] if matches!(case, Case::TlsConn) => {
+            ["tconn", lib0, srv @ ("r" | "o"), ca @ ("good" | "bad"), names, host, payload]
+                if matches!(case, Case::TlsConn)
+                    && matches!(lib0.split(':').collect::<Vec<_>>().as_slice(), ["r" | "o"] | ["r" | "o", "k" | "kc" | "f" | "cf" | "fc"]) =>
+            {
+                let (lib, tpath) = match lib0.split_once(':') {
+                    Some((l, p)) => (l, p),
+                    None => (*lib0, "k"),
+                };
+                let lib = &lib;
                 let cx0 = Ctx { eps: vec![] };
                 let host = if let Some(h) = host.strip_prefix("s=") {
                     cx0.subst(h).map(HostReq::S)
+                } else if let Some(h) = host.strip_prefix("t=") {
+                    cx0.subst(h).map(|h| HostReq::T(Box::leak(h.into_boxed_str())))
                 } else if let Some(h) = host.strip_prefix("h=") {
                     h.rsplit_once(',').and_then(|(h, p)| {
                         let p = if p == "-" { Some(None) } else { p.parse::<u16>().ok().filter(|x| x.to_string() == p).map(Some) };
@@ -3096,7 +3554,7 @@ fn run_conn_group(rt: &tokio::runtime::Runtime, lines: &[String]) -> GroupOut {
                 let payload = payload.parse::<usize>().ok().filter(|n| *n <= 65536 && n.to_string() == *payload);
                 match (host, names, payload) {
                     (Some(host), Some(names), Some(payload)) => {
-                        let op = tconn::TOp { lib: lib.to_string(), srv: srv.to_string(), names: names.to_string(), trusted: *ca == "good", host, payload };
+                        let op = tconn::TOp { lib: lib.to_string(), path: tpath.to_string(), srv: srv.to_string(), names: names.to_string(), trusted: *ca == "good", host, payload };
                         let pk = tpki.get_or_insert_with(tconn::Pki::new);
                         match tconn::run(rt, pk, &op) {
                             None => "bad-op".into(),
